@@ -3,7 +3,6 @@ package server
 import (
 	"encoding/json"
 	"log"
-	"reflect"
 	"sync"
 
 	"github.com/cenkalti/rpc2"
@@ -176,8 +175,10 @@ func (m *monitor) filter(update database.Update) ovsdb.TableUpdates {
 			case ru.Delete() && m.request[table].Select.Delete():
 				ru.New = filterColumns(ru.New, cols)
 				ru.Old = filterColumns(ru.Old, cols)
-				if ru.Modify() && reflect.DeepEqual(*ru.Old, *ru.New) {
+				if ru.Modify() && ru2.Modify != nil && len(*filterColumns(ru2.Modify, cols)) == 0 {
 					// nothing changed in the columns this monitor selected
+					// (same criterion as for update2: sets and maps are
+					// compared as such, not by the order of their elements)
 					return nil
 				}
 				tu[uuid] = ru
